@@ -19,7 +19,9 @@
 //!   D c   clone c: process() until its command queue is empty
 //!   u p   publisher p (0 = root gate, c = clone c) starts update_data(next seq)
 //!   T     agent.terminate(), root processes it and is dropped
-//!   X     root gate dropped without Terminate (unit exits by itself)
+//!   Z     agent.terminate(), root processes it but the gate object stays alive (unit busy exiting);
+//!         link ops are skipped until the gate is dropped
+//!   X     root gate dropped (without Terminate, or after Z)
 //! After every link / clone / terminate op the root gate processes its
 //! command queue until it is empty.
 use crate::util::ops;
@@ -66,6 +68,9 @@ fn idle(p: &mut P) -> bool {
 impl St {
     fn root(&self) -> Option<Arc<Gate>> { if self.root_term.load(SeqCst) { None } else { self.pubs[0].gate.clone() } }
 
+    /// Terminate handled, gate object not yet dropped: nobody serves the command queue
+    fn zombie(&self) -> bool { self.root_term.load(SeqCst) && self.pubs[0].gate.is_some() }
+
     /// The root gate runs `process()` in a standing task (never cancelled mid-command), so it
     /// handles every command as soon as the runtime gets to it; draining = settling.
     async fn root_drain(&mut self) { settle().await }
@@ -100,7 +105,7 @@ impl St {
     }
 
     async fn connect(&mut self, l: usize) -> &'static str {
-        if self.links[l].conn { return "skip" }
+        if self.links[l].conn || self.zombie() { return "skip" }
         if self.links[l].gone { return "gone" }
         self.lag_guard().await;
         self.notified();
@@ -124,7 +129,7 @@ impl St {
     }
 
     async fn link_cmd(&mut self, l: usize, what: &str) -> &'static str {
-        if !self.links[l].conn { return "skip" }
+        if !self.links[l].conn || self.zombie() { return "skip" }
         if what == "s" && self.links[l].susp { return "skip" }
         if what == "r" && !self.links[l].susp { return "skip" }
         self.lag_guard().await;
@@ -245,8 +250,11 @@ pub fn run_case(line: &str) -> String {
                 let c = num(o);
                 if c == 0 || c >= st.pubs.len() { format!("{}:skip", o[0]) } else { format!("{}:{}", o[0], rt.block_on(st.clone_process(c, o[0] == "D"))) }
             }
-            "T" | "X" => {
-                if st.root().is_none() || !idle(&mut st.pubs[0]) { format!("{}:skip", o[0]) } else { format!("{}:{}", o[0], stop_root(&rt, &mut st, o[0] == "T")) }
+            "T" | "Z" => {
+                if st.root().is_none() || !idle(&mut st.pubs[0]) { format!("{}:skip", o[0]) } else { format!("{}:{}", o[0], stop_root(&rt, &mut st, true, o[0] == "T")) }
+            }
+            "X" => {
+                if st.pubs[0].gate.is_none() || !idle(&mut st.pubs[0]) { "X:skip".into() } else { format!("X:{}", stop_root(&rt, &mut st, false, true)) }
             }
             _ => "?".into(),
         };
@@ -261,7 +269,7 @@ pub fn run_case(line: &str) -> String {
         if !progress { break }
     }
     let busy: Vec<String> = (0..st.pubs.len()).filter(|p| !idle(&mut st.pubs[*p])).map(|p| p.to_string()).collect();
-    if st.root().is_some() && busy.is_empty() { stop_root(&rt, &mut st, true); }
+    if st.root().is_some() && busy.is_empty() { stop_root(&rt, &mut st, true, true); }
     let mut terms = vec![];
     for c in 1..st.pubs.len() {
         if st.pubs[c].gate.is_some() && busy.is_empty() {
@@ -270,6 +278,7 @@ pub fn run_case(line: &str) -> String {
             if let Some(g) = st.pubs[c].gate.take() { drop(g); }
         }
     }
+    if st.pubs[0].gate.is_some() && busy.is_empty() { stop_root(&rt, &mut st, false, true); }
     let mut gones = vec![];
     for l in (0..NLINKS).step_by(2) {
         if st.links[l].conn && busy.is_empty() {
@@ -294,9 +303,10 @@ pub fn run_case(line: &str) -> String {
     out.join(" ")
 }
 
-/// T: agent.terminate(); the unit task sees Terminated and exits (dropping the gate).
-/// X: the unit task is stopped without a Terminate command.
-fn stop_root(rt: &tokio::runtime::Runtime, st: &mut St, terminate: bool) -> &'static str {
+/// terminate: agent.terminate(); the unit task sees Terminated and exits.
+/// drop_gate: the root Gate object is dropped (the unit is gone).
+fn stop_root(rt: &tokio::runtime::Runtime, st: &mut St, terminate: bool, drop_gate: bool) -> &'static str {
+    let was_term = st.root_term.load(SeqCst);
     rt.block_on(async {
         if terminate {
             st.lag_guard().await;
@@ -308,9 +318,9 @@ fn stop_root(rt: &tokio::runtime::Runtime, st: &mut St, terminate: bool) -> &'st
     let seen = st.root_term.load(SeqCst);
     st.root_term.store(true, SeqCst);
     st.root_task = None;
-    st.pubs[0].gate = None;
+    if drop_gate { st.pubs[0].gate = None; }
     rt.block_on(settle());
-    if terminate && !seen { "lost" } else if st.agent.is_terminated() { "ok" } else { "open" }
+    if terminate && !was_term && !seen { "lost" } else if !drop_gate || st.agent.is_terminated() { "ok" } else { "open" }
 }
 
 pub fn special(name: &str, args: &[String]) -> bool {
